@@ -95,3 +95,100 @@ class cached_docstring:
 
     def ensures_cache_consistent(self, qname):
         return self._DocstringParser__cached_node == qname and self._DocstringParser__cached_docstring == DOC(self, qname)
+
+
+# ---------------------------------------------------------------------------------------------- class lookup (C17)
+@contract(_G + "_get_class_in_package", props=["C17", "C01"])
+class get_class_in_package:
+    """Lookup of a (private) superclass: the class registered under exactly that id, else the first registered
+    class whose id ends with the id or lies below the named package and has the same class name; LookupError
+    exactly when there is none."""
+    params = {"class_qname": "str"}
+    modifies = []
+    safety = False
+
+    def raises_LookupError(self, class_qname):
+        cid = class_qname.replace(".", "/")
+        path = "/".join(cid.split("/")[:-1])
+        name = cid.split("/")[-1]
+        return cid not in self.api.classes and not any(
+            k.endswith(cid) or (k.startswith(path + "/") and k.endswith("/" + name)) for k in self.api.classes)
+
+    def ensures_lookup(self, class_qname, result):
+        cid = class_qname.replace(".", "/")
+        path = "/".join(cid.split("/")[:-1])
+        name = cid.split("/")[-1]
+        if cid in self.api.classes:
+            return result is self.api.classes[cid]
+        for k in self.api.classes:
+            if k.endswith(cid) or (k.startswith(path + "/") and k.endswith("/" + name)):
+                return result is self.api.classes[k]
+        return False
+
+
+# ---------------------------------------------------------------------------------------------- ids (C12)
+@contract(_V + "_create_id_from_stack", props=["C12"])
+class create_id_from_stack:
+    """'<owner id>/<name>': module id of the stack bottom, then the names of the enclosing declarations (entries
+    that are assignment lists do not contribute), then the new name, joined by '/'."""
+    params = {"name": "str"}
+    modifies = []
+    safety = False
+
+    def ensures_id(self, name, result):
+        from safeds_stubgen.api_analyzer._api import Module
+        segs = [(it.id if isinstance(it, Module) else it.name) for it in self._MyPyAstVisitor__declaration_stack
+                if not isinstance(it, list)]
+        return result == "/".join(segs + [name])
+
+    def ensures_suffix(self, name, result):
+        return result.endswith(name)
+
+
+# ---------------------------------------------------------------------------------------------- publicity (C04)
+@opaque(ann="bool | None")
+def REEXP(visitor, name, qname, parent):
+    """What the re-export table says about a declaration: True (re-exported under a public name) or None."""
+    return visitor._check_publicity_in_reexports(name, qname, parent)
+
+
+@contract(_V + "_check_publicity_in_reexports", props=["C04"], verify=False)
+class check_publicity_in_reexports:
+    modifies = []
+
+    def ensures_table(self, name, qname, parent, result):
+        return result == REEXP(self, name, qname, parent)
+
+
+def IS_DUNDER(name):
+    return name.startswith("__") and name.endswith("__")
+
+
+@contract(_V + "_is_public", props=["C04", "C01"])
+class is_public:
+    """Publicity of a declaration (C04): unless the re-export table makes it public, a declaration is private iff
+    its name has a leading underscore and is not a dunder name, or its owner / an enclosing module or package
+    segment is private."""
+    params = {"name": "str", "qname": "str"}
+    modifies = []
+    safety = False
+
+    def requires(self, name, qname):
+        from safeds_stubgen.api_analyzer._api import Class, Function, Module
+        stack = self._MyPyAstVisitor__declaration_stack
+        return self.mypy_file is not None and len(stack) > 0 and (
+            isinstance(stack[-1], Module) or isinstance(stack[-1], Class)
+            or (isinstance(stack[-1], Function) and stack[-1].name == "__init__"))
+
+    def ensures_publicity(self, name, qname, result):
+        from safeds_stubgen.api_analyzer._api import Class, Function, Module
+        parent = self._MyPyAstVisitor__declaration_stack[-1]
+        if not isinstance(parent, Function):
+            r = REEXP(self, name, qname, parent)
+            if r is not None:
+                return result == r
+        if name.startswith("_") and not IS_DUNDER(name):
+            return result is False
+        if isinstance(parent, Class) and (name == "__init__" or not name.startswith("_")):
+            return result == parent.is_public
+        return result == all(not seg.startswith("_") for seg in qname.split(".")[:-1])
